@@ -48,19 +48,25 @@ def send_msg(sock, msg, comment=None):
         raise ConnectionClosedError() from e
 
 
+def _recv_exactly(sock, size):
+    data = bytes()
+    while len(data) < size:
+        chunk = sock.recv(size - len(data))
+        if not chunk:
+            raise ConnectionClosedError()
+        data += chunk
+    return data
+
+
 def recv_msg(sock, state_overwrites=None, comment=None):
     try:
-        data_len = struct.unpack('!I', sock.recv(4))[0]
+        data_len = struct.unpack('!I', _recv_exactly(sock, 4))[0]
     except (BrokenPipeError, struct.error, ConnectionResetError, ConnectionAbortedError, OSError) as e:
         raise ConnectionClosedError() from e
 
     logger.abusive('Receiving a message: {} ({})', data_len, comment)
-    data = bytes()
     try:
-        while data_len:
-            chunk = sock.recv(data_len)
-            data_len -= len(chunk)
-            data += chunk
+        data = _recv_exactly(sock, data_len)
     except (ConnectionResetError) as e:
         raise ConnectionClosedError() from e
     logger.abusive('Message received ({}), deserializing...', comment)
